@@ -6,6 +6,7 @@ import (
 	"bytes"
 	"context"
 	"crypto/sha256"
+	"database/sql"
 	"encoding/base64"
 	"encoding/json"
 	"errors"
@@ -167,7 +168,7 @@ type result struct {
 var (
 	errShutdown = errors.New("harness shut down")
 	errInjected = errors.New("injected storage failure")
-	errNoRows   = errors.New("sql: no rows in result set")
+	errNoRows   = sql.ErrNoRows // the sentinel both shipped storage drivers return for an unknown key
 	errCache    = errors.New("injected cache failure")
 )
 
